@@ -176,6 +176,12 @@ class FlowEmit:
 
     def mcall(self, e, env):
         recv, name, args = e[1], e[2], e[3]
+        # (lo..=hi).contains(&x) / (lo..hi).contains(&x)
+        r_ = recv[1] if recv[0] == "paren" else recv
+        if name == "contains" and len(args) == 1 and r_[0] in ("range", "rangei") and r_[1] is not None and r_[2] is not None:
+            lo, lot = self.ex(r_[1], env); hi, hit = self.ex(r_[2], env); x, xt = self.ex(args[0], env)
+            if not (lot == hit == xt) or xt not in ("N", "F"): die("range.contains on mixed types")
+            return "(decide (%s ≤ %s) && decide (%s %s %s))" % (lo, x, x, "≤" if r_[0] == "rangei" else "<", hi), "B"
         if self.zip_idiom(e) is not None:
             f, x, y, ety, fallible = self.zip_parts(e, env)
             if fallible: die("a panicking closure is only supported as the right-hand side of an assignment")
